@@ -57,7 +57,16 @@ async def _client_main(case: dict) -> dict:
             with backend.open_cancel_scope() as scope:
                 res["scope"] = scope
                 while True:
-                    packet = await endpoint.recv_packet()
+                    if case.get("handler_style", "plain").startswith("poll"):
+                        # a consumer that polls ("what is there now") and does something else in between
+                        try:
+                            with backend.timeout(0):
+                                packet = await endpoint.recv_packet()
+                        except TimeoutError:
+                            await asyncio.sleep(0)
+                            continue
+                    else:
+                        packet = await endpoint.recv_packet()
                     res["handled"] += 1
                     if len(packet) != f - 1:
                         res["bad"] += 1
@@ -70,10 +79,15 @@ async def _client_main(case: dict) -> dict:
 
     async def feeder() -> None:
         chunk = frame * case["chunk_frames"]
+        cut = case.get("feed_cut") or 0
+        pieces = [chunk] if not cut else [chunk[: len(chunk) - f + cut], chunk[len(chunk) - f + cut :]]
+        i = 0
         while not stop_feeding:
-            if len(aio_transport.inbox) < len(chunk) and not aio_transport.is_closing():
-                aio_transport.feed(chunk)
-                res["fed"] += len(chunk)
+            piece = pieces[i % len(pieces)]
+            if len(aio_transport.inbox) < len(piece) and not aio_transport.is_closing():
+                aio_transport.feed(piece)
+                res["fed"] += len(piece)
+                i += 1
             await asyncio.sleep(0)
 
     task = asyncio.create_task(consumer())
@@ -302,10 +316,17 @@ async def _main(case: dict) -> dict:
 
     async def feeder() -> None:
         chunk = frame * case["chunk_frames"]
+        cut = case.get("feed_cut") or 0
+        # (feed_cut: the segments end in the middle of a frame, so that a poll regularly finds the beginning of a request
+        # whose rest has not arrived yet)
+        pieces = [chunk] if not cut else [chunk[: len(chunk) - f + cut], chunk[len(chunk) - f + cut :]]
+        i = 0
         while not stop_feeding:
-            if len(aio_transport.inbox) < len(chunk) and not aio_transport.is_closing():
-                aio_transport.feed(chunk)
-                res["fed"] += len(chunk)
+            piece = pieces[i % len(pieces)]
+            if len(aio_transport.inbox) < len(piece) and not aio_transport.is_closing():
+                aio_transport.feed(piece)
+                res["fed"] += len(piece)
+                i += 1
             aio_transport.peer_read()  # the peer reads the answers as they come: sending never blocks
             await asyncio.sleep(0)
 
@@ -424,6 +445,7 @@ def st_case(draw: st.DrawFn, tier: str) -> dict:
         "warmup": draw(st.integers(1, 40)),
         "extra_ticks": draw(st.integers(0, 7)),
         "handler_style": draw(st.sampled_from(["plain", "plain", "poll-yield0", "poll-backend0"])),
+        "feed_cut": draw(st.sampled_from([0, 0, 1, frame // 2, frame - 1])),
     }
 
 
